@@ -644,19 +644,9 @@ func ruleTypeTags(c *core.Ctx) {
 			continue
 		}
 		have := map[string]bool{}
-		ast.Inspect(d.Body, func(n ast.Node) bool {
-			if sw, ok := n.(*ast.SwitchStmt); ok && strings.HasSuffix(types.ExprString(sw.Tag), ".Tag") {
-				for _, s := range sw.Body.List {
-					for _, e := range s.(*ast.CaseClause).List {
-						if tv := p.TypesInfo.Types[e]; tv.Value != nil && tv.Value.Kind() == constant.String {
-							have[constant.StringVal(tv.Value)] = true
-						}
-					}
-				}
-				return false
-			}
-			return true
-		})
+		for tag := range tagActions(c, p, d) { // switch cases, if-chains, predicates, lookups and tables alike
+			have[tag] = true
+		}
 		for _, t := range it.tags {
 			c.Check(have[t], rule, it.fn+"/"+t, d.Pos(), "has a case", fmt.Sprintf("no case for the documented tag %s", t))
 		}
